@@ -200,6 +200,7 @@ def sniff : CName → List Nat → Bool → IRes
 structure ISt where
   mode : Option Kind
   buf : List Nat
+deriving DecidableEq
 
 def CName.init : CName → ISt
   | .plain k => ⟨some k, []⟩
